@@ -1,6 +1,7 @@
 """C03 - written files conform to the documented SunVox chunk format (independent decoder as output monitor)."""
 import os
 import re
+import struct
 
 from .. import build, env, iffparse, monitors, refcodec, snapshot, spec, workload
 from . import c15
@@ -275,6 +276,42 @@ def object_histories(res, seed):
         bad = [len(x[1]) for x in iffparse.parse(raw2) if x[0] == b"SNAM" and len(x[1]) != 32]
         if bad:
             res.violation("C03:structure:SNAM-size", f"a project read from a file whose SNAM fields were stored as {style} is written with SNAM chunks of {bad[:4]} bytes (documented: 32)", case)
+    # projects whose lists were edited BY HAND (the lists are plain lists): a module position emptied while a link still names it,
+    # one Pattern object put into two positions - the file says what the object says
+    for k in range(8):
+        p = api.Project()
+        mods = [p.new_module(api.m.Amplifier, name=f"a{i}") for i in range(4)]
+        for a_, b_ in zip(mods, mods[1:]):
+            a_ >> b_
+        mods[0] >> mods[3]
+        mods[3] >> p.output
+        pat = api.Pattern(tracks=2, lines=2, name="twice")
+        pat.data[0][0].vel = 7
+        p.attach_pattern(pat)
+        p.attach_pattern(api.Pattern(tracks=1, lines=1, name="other"))
+        what = ("module-emptied", "pattern-twice", "both")[k % 3]
+        if what in ("module-emptied", "both"):
+            p.modules[mods[k % 3].index] = None
+        if what in ("pattern-twice", "both"):
+            p.patterns.append(pat)
+        case = {"family": "object-histories", "kind": "lists-edited-by-hand:" + what}
+        res.count("hand_edited_list_projects")
+        try:
+            raw = p.read()
+        except Exception:
+            res.count("hand_edited_list_projects_unsaveable")
+            continue
+        # the SLNK chunks hold what the in_links lists hold; every Pattern object is written as a pattern (PDTA), not as a clone
+        tables = [list(struct.unpack("<" + "i" * (len(c[1]) // 4), c[1])) for c in iffparse.parse(raw) if c[0] == b"SLNK"]
+        want_tables = [list(m_.in_links) for m_ in p.modules if m_ is not None]
+        if tables != want_tables:
+            res.violation("C03:content:/modules[]/links/in:hand-edited-lists", f"{what}: SLNK chunks decode to {tables}, the modules' in_links are {want_tables}", case)
+            continue
+        n_pdta = sum(1 for c in iffparse.parse(raw) if c[0] == b"PDTA")
+        n_ppar = sum(1 for c in iffparse.parse(raw) if c[0] == b"PPAR")
+        want_pdta = sum(1 for q in p.patterns if isinstance(q, api.Pattern))
+        if (n_pdta, n_ppar) != (want_pdta, 0):
+            res.violation("C03:content:/patterns:hand-edited-lists", f"{what}: the pattern list holds {want_pdta} Pattern objects and no clones; the file has {n_pdta} PDTA and {n_ppar} PPAR chunks", case)
     for hname in ("handed-a-chunk", "file-without-record"):
         for k in range(4):
             try:
